@@ -23,6 +23,9 @@ ALPHABET = collections.OrderedDict([
     ("blanks-only", b"  \n\n"),
     ("no-final-newline", b"a;"),
     ("big", BIG),
+    # formatting switched off up to the end of the file, no final line terminator, a last line longer than any
+    # line buffer of the standard streams
+    ("off-region-long-last-line", b"a  ;\n// pasfmt off\n" + b"x := " + b"y + " * 2000 + b"z;"),
     ("invalid-utf8", b"a ;\xff\n"),
     ("utf8-bom", b"\xef\xbb\xbfa  ;\n"),
     ("utf16le-bom", "﻿a  ;\n".encode("utf-16-le")),
